@@ -253,6 +253,7 @@ func (u *UnitGen) execInstr(fr *Frame, st *State, instr ssa.Instruction) {
 		}
 		fr.closures[in] = cl
 		fr.vals[in] = r
+		u.closureFacts(fr, st, in, r, cl)
 	case *ssa.MakeInterface:
 		x := u.val(fr, st, in.X)
 		u.setVal(fr, in, reg.MkIface(in.X.Type(), x))
